@@ -15,7 +15,7 @@ from ref import cfdp as R
 from units import cfdp_pdu as U
 
 PROPERTY = "C06"
-LEVEL = "exploration"
+LEVEL = "model_checking"  # bounded-exhaustive enumeration of executions against a reference model (DESIGN.md 1, 2.1)
 EXHAUSTIVE = True
 RULE = (
     "case = (directive kind, header configuration, parameter vector). The 128 header configurations (CRC x large-file x "
